@@ -1,3 +1,540 @@
-From Coq Require Import List String Bool Arith.
+(* PathsProofs.v — proofs about Paths.v (C06). *)
+From Coq Require Import List String Ascii Bool Arith Lia Permutation.
 From PV Require Import Paths.
 Import ListNotations.
+Open Scope string_scope.
+Open Scope list_scope.
+
+(* ------------------------------------------------------------------------------------------ basics *)
+Lemma path_eqb_eq : forall a b, path_eqb a b = true <-> a = b.
+Proof.
+  induction a as [|x a IH]; destruct b as [|y b]; cbn; split; intro H; try congruence; try discriminate.
+  - apply andb_true_iff in H as [H1 H2]. apply String.eqb_eq in H1. apply IH in H2. congruence.
+  - inversion H; subst. rewrite String.eqb_refl. cbn. apply IH. reflexivity.
+Qed.
+
+Lemma mem_In : forall s l, mem s l = true <-> In s l.
+Proof.
+  intros s l. unfold mem. rewrite existsb_exists. split.
+  - intros [x [H1 H2]]. apply String.eqb_eq in H2. subst. exact H1.
+  - intro H. exists s. split; [exact H | apply String.eqb_refl].
+Qed.
+Lemma mem_false : forall s l, mem s l = false <-> ~ In s l.
+Proof. intros. rewrite <- mem_In. destruct (mem s l); split; intro H; congruence. Qed.
+
+Lemma pmem_In : forall p l, pmem p l = true <-> In p l.
+Proof.
+  intros p l. unfold pmem. rewrite existsb_exists. split.
+  - intros [x [H1 H2]]. apply path_eqb_eq in H2. subst. exact H1.
+  - intro H. exists p. split; [exact H | apply path_eqb_eq; reflexivity].
+Qed.
+Lemma pmem_false : forall p l, pmem p l = false <-> ~ In p l.
+Proof. intros. rewrite <- pmem_In. destruct (pmem p l); split; intro H; congruence. Qed.
+
+Lemma nodupb_NoDup : forall l, nodupb l = true -> NoDup l.
+Proof.
+  induction l as [|x l IH]; cbn; intro H; constructor.
+  - apply andb_true_iff in H as [H _]. apply negb_true_iff in H. apply mem_false in H. exact H.
+  - apply IH. apply andb_true_iff in H as [_ H]. exact H.
+Qed.
+
+Lemma assoc_In {B} : forall (l : list (string * B)) n s, NoDup (map fst l) -> In (n, s) l -> assoc n l = Some s.
+Proof.
+  induction l as [|[k b] l IH]; cbn; intros n s ND H; [contradiction|].
+  inversion ND as [|? ? Hk ND']; subst. destruct H as [H|H].
+  - inversion H; subst. rewrite String.eqb_refl. reflexivity.
+  - destruct (String.eqb n k) eqn:E.
+    + apply String.eqb_eq in E. subst. exfalso. apply Hk. apply in_map_iff. exists (k, s). split; [reflexivity|exact H].
+    + apply IH; assumption.
+Qed.
+Lemma assoc_Some_In {B} : forall (l : list (string * B)) n s, assoc n l = Some s -> In (n, s) l.
+Proof.
+  induction l as [|[k b] l IH]; cbn; intros n s H; [discriminate|].
+  destruct (String.eqb n k) eqn:E.
+  - apply String.eqb_eq in E. inversion H; subst. left. reflexivity.
+  - right. apply IH. exact H.
+Qed.
+Lemma assoc_None {B} : forall (l : list (string * B)) n, assoc n l = None <-> ~ In n (map fst l).
+Proof.
+  induction l as [|[k b] l IH]; cbn; intros n; [tauto|].
+  destruct (String.eqb n k) eqn:E.
+  - apply String.eqb_eq in E. subst. split; [discriminate | intro H; exfalso; apply H; left; reflexivity].
+  - apply String.eqb_neq in E. rewrite IH. split; intro H; [intros [H1|H1]; [congruence|tauto] | tauto].
+Qed.
+Lemma assoc_map {B C} (f : B -> C) : forall (l : list (string * B)) n,
+  assoc n (map (fun c => (fst c, f (snd c))) l) = option_map f (assoc n l).
+Proof.
+  induction l as [|[k b] l IH]; cbn; intros n; [reflexivity|]. destruct (String.eqb n k); [reflexivity | apply IH].
+Qed.
+
+(* induction principle for the nested type *)
+Fixpoint tree_ind' (P : tree -> Prop) (HL : forall nd, P (Leaf nd))
+  (HC : forall ch, Forall (fun c => P (snd c)) ch -> P (Circ ch)) (t : tree) : P t :=
+  match t with
+  | Leaf nd => HL nd
+  | Circ ch => HC ch ((fix go (l : list (string * tree)) : Forall (fun c => P (snd c)) l :=
+                         match l with
+                         | [] => Forall_nil _
+                         | c :: l' => Forall_cons c (tree_ind' P HL HC (snd c)) (go l')
+                         end) ch)
+  end.
+
+Definition WF (t : tree) : Prop := wfb t = true.
+Lemma WF_circ : forall ch, WF (Circ ch) ->
+  NoDup (map fst ch) /\ ~ In all (map fst ch) /\ (forall c, In c ch -> WF (snd c)).
+Proof.
+  unfold WF. cbn. intros ch H. apply andb_true_iff in H as [H H3]. apply andb_true_iff in H as [H1 H2].
+  split; [apply nodupb_NoDup; exact H1|]. split.
+  - apply negb_true_iff in H2. apply mem_false. exact H2.
+  - rewrite forallb_forall in H3. exact H3.
+Qed.
+
+(* ------------------------------------------------------------------------------------------ list lemmas *)
+Lemma flat_map_nil {A B} (f : A -> list B) : forall l, (forall c, In c l -> f c = []) -> flat_map f l = [].
+Proof. induction l as [|c l IH]; cbn; intro H; [reflexivity|]. rewrite (H c), IH; auto. Qed.
+
+Lemma flat_map_single {B C} (f : string * B -> list C) : forall l n s,
+  NoDup (map fst l) -> In (n, s) l -> (forall c, In c l -> fst c <> n -> f c = []) -> flat_map f l = f (n, s).
+Proof.
+  induction l as [|c l IH]; cbn; intros n s ND H Hf; [contradiction|].
+  inversion ND as [|? ? Hk ND']; subst. destruct H as [H|H].
+  - subst c. rewrite (flat_map_nil f l); [apply app_nil_r|].
+    intros c Hc. apply Hf; [right; exact Hc|]. intro E. apply Hk. cbn. rewrite <- E. apply in_map. exact Hc.
+  - rewrite (Hf c); [|left; reflexivity|].
+    + cbn. apply IH; auto.
+    + intro E. apply Hk. rewrite E. apply in_map_iff. exists (n, s). split; [reflexivity|exact H].
+Qed.
+
+Lemma flat_map_ext_in {A B} (f g : A -> list B) : forall l, (forall c, In c l -> f c = g c) -> flat_map f l = flat_map g l.
+Proof. induction l as [|c l IH]; cbn; intro H; [reflexivity|]. rewrite (H c), IH; auto. Qed.
+
+Lemma filter_ext_in' {A} (f g : A -> bool) : forall l, (forall c, In c l -> f c = g c) -> filter f l = filter g l.
+Proof. induction l as [|c l IH]; cbn; intro H; [reflexivity|]. rewrite (H c), IH; auto. Qed.
+
+Lemma filter_map_comm {A B} (f : B -> bool) (g : A -> B) : forall l, filter f (map g l) = map g (filter (fun x => f (g x)) l).
+Proof. induction l as [|c l IH]; cbn; [reflexivity|]. destruct (f (g c)); cbn; rewrite IH; reflexivity. Qed.
+
+Lemma filter_flat_map {A B} (f : B -> bool) (g : A -> list B) : forall l,
+  filter f (flat_map g l) = flat_map (fun x => filter f (g x)) l.
+Proof. induction l as [|c l IH]; cbn; [reflexivity|]. rewrite filter_app, IH. reflexivity. Qed.
+
+Lemma map_flat_map {A B C} (f : B -> C) (g : A -> list B) : forall l,
+  map f (flat_map g l) = flat_map (fun x => map f (g x)) l.
+Proof. induction l as [|c l IH]; cbn; [reflexivity|]. rewrite map_app, IH. reflexivity. Qed.
+
+Lemma NoDup_map_cons : forall (n : string) (l : list path), NoDup l -> NoDup (map (cons n) l).
+Proof.
+  intros n l H. apply FinFun.Injective_map_NoDup; [|exact H]. intros a b E. inversion E. reflexivity.
+Qed.
+
+Lemma NoDup_flat_map_heads {B} (f : string * B -> list path) : forall l,
+  NoDup (map fst l) -> (forall c, In c l -> NoDup (f c)) ->
+  (forall c q, In c l -> In q (f c) -> exists q', q = fst c :: q') -> NoDup (flat_map f l).
+Proof.
+  induction l as [|c l IH]; cbn; intros ND H1 H2; [constructor|].
+  inversion ND as [|? ? Hk ND']; subst.
+  assert (Hl : NoDup (flat_map f l)) by (apply IH; auto).
+  assert (Hc : NoDup (f c)) by (apply H1; left; reflexivity).
+  revert Hc. generalize (H2 c). induction (f c) as [|q fc IHfc]; cbn; intros Hq Hc; [exact Hl|].
+  inversion Hc; subst. constructor.
+  - intro Hin. apply in_app_or in Hin as [Hin|Hin]; [contradiction|].
+    apply in_flat_map in Hin as [c' [Hc' Hq']].
+    destruct (Hq q (or_introl eq_refl) (or_introl eq_refl)) as [q1 E1].
+    destruct (H2 c' q (or_intror Hc') Hq') as [q2 E2].
+    rewrite E1 in E2. inversion E2 as [[E3 E4]]. apply Hk. rewrite E3. apply in_map. exact Hc'.
+  - apply IHfc; [|assumption]. intros q0 Hc0 Hq0. apply Hq; [exact Hc0 | right; exact Hq0].
+Qed.
+
+Lemma add_new_app : forall new acc, NoDup (acc ++ new) -> add_new acc new = acc ++ new.
+Proof.
+  unfold add_new. induction new as [|k new IH]; cbn; intros acc H; [symmetry; apply app_nil_r|].
+  assert (Hk : ~ In k acc).
+  { apply NoDup_remove_2 in H. intro Hin. apply H. apply in_or_app. left. exact Hin. }
+  apply pmem_false in Hk. rewrite Hk. rewrite IH; rewrite <- app_assoc; cbn; [reflexivity | exact H].
+Qed.
+Lemma add_new_nil : forall l, NoDup l -> add_new [] l = l.
+Proof. intros. apply (add_new_app l []). exact H. Qed.
+
+Lemma seq_concat_ok {A B} (F : A -> res (list B)) (G : A -> list B) : forall l,
+  (forall c, In c l -> F c = Ok (G c)) -> seq_concat (map F l) = Ok (flat_map G l).
+Proof.
+  induction l as [|c l IH]; cbn; intro H; [reflexivity|]. rewrite (H c), IH; cbn; auto.
+Qed.
+
+(* ------------------------------------------------------------------------------------------ the recursive denotation *)
+Fixpoint den (t : tree) (v : varid) (pat : list string) : list path :=
+  match t with
+  | Leaf _ => []
+  | Circ ch =>
+      match pat with
+      | [] => []
+      | p :: rest =>
+          flat_map (fun c : string * tree => let '(n, s) := c in
+            if String.eqb p all || String.eqb p n then
+              match s with
+              | Leaf nd => match rest with [] => if has_var v nd then [[n]] else [] | _ => [] end
+              | Circ _ => match rest with
+                          | [] => if String.eqb p all then map (cons n) (den s v [all]) else []
+                          | _ => map (cons n) (den s v rest)
+                          end
+              end
+            else []) ch
+      end
+  end.
+
+Definition test (v : varid) (pat : list string) (q : path * node) : bool := matches pat (fst q) && has_var v (snd q).
+
+Lemma pd_circ : forall ch v pat,
+  path_denotation (Circ ch) v pat =
+  flat_map (fun c : string * tree => let '(n, s) := c in
+              map (cons n) (map fst (filter (fun q => test v pat (n :: fst q, snd q)) (leaves s)))) ch.
+Proof.
+  intros. unfold path_denotation. cbn [leaves]. fold (test v pat).
+  rewrite filter_flat_map, map_flat_map. apply flat_map_ext_in. intros [n s] _.
+  rewrite filter_map_comm, !map_map. reflexivity.
+Qed.
+
+Lemma leaves_circ_nonempty : forall ch q nd, In (q, nd) (leaves (Circ ch)) -> exists n q', q = n :: q'.
+Proof.
+  intros ch q nd H. cbn in H. apply in_flat_map in H as [[n s] [_ H]]. apply in_map_iff in H as [[q' nd'] [E _]].
+  inversion E. eauto.
+Qed.
+
+Lemma matches_all_nonempty : forall n q, matches [all] (n :: q) = true.
+Proof. intros. cbn. reflexivity. Qed.
+
+Lemma den_spec : forall t v pat, is_circ t = true -> den t v pat = path_denotation t v pat.
+Proof.
+  induction t as [nd|ch IH] using tree_ind'; intros v pat IC.
+  - discriminate.
+  - clear IC. rewrite pd_circ. destruct pat as [|p rest].
+    + cbn [den]. symmetry. apply flat_map_nil. intros [n s] _.
+      rewrite (filter_ext_in' _ (fun _ => false)); [|intros [q nd] _; reflexivity].
+      clear. induction (leaves s); cbn; auto.
+    + cbn [den]. apply flat_map_ext_in. intros [n s] Hin.
+      rewrite Forall_forall in IH. specialize (IH _ Hin). cbn [snd] in IH.
+      destruct s as [nd|ch'].
+      * cbn [leaves filter map]. unfold test. cbn [fst snd].
+        destruct rest as [|r rest'].
+        -- cbn [matches]. destruct (String.eqb p all) eqn:E1; cbn [orb].
+           ++ destruct (has_var v nd); reflexivity.
+           ++ destruct (String.eqb p n); cbn; [destruct (has_var v nd); reflexivity | reflexivity].
+        -- cbn [matches]. rewrite andb_false_r. cbn.
+           destruct (String.eqb p all || String.eqb p n); reflexivity.
+      * destruct rest as [|r rest'].
+        -- (* last pattern element at a circuit *)
+           destruct (String.eqb p all) eqn:E1; cbn [orb].
+           ++ apply String.eqb_eq in E1. subst p. rewrite IH by reflexivity. unfold path_denotation. f_equal. f_equal.
+              apply filter_ext_in'. intros [q nd] Hq. unfold test. cbn [fst snd].
+              destruct (leaves_circ_nonempty _ _ _ Hq) as [n' [q' E]]. subst q. reflexivity.
+           ++ rewrite (filter_ext_in' _ (fun _ => false)).
+              ** assert (E : forall l : list (path * node), filter (fun _ => false) l = []) by (induction l; auto).
+                 rewrite E. destruct (String.eqb p n); reflexivity.
+              ** intros [q nd] Hq. unfold test. cbn [fst snd].
+                 destruct (leaves_circ_nonempty _ _ _ Hq) as [n' [q' E]]. subst q. cbn [matches]. rewrite E1.
+                 rewrite andb_false_r. reflexivity.
+        -- destruct (String.eqb p all || String.eqb p n) eqn:E.
+           ++ rewrite IH by reflexivity. unfold path_denotation. f_equal. f_equal. apply filter_ext_in'. intros [q nd] Hq.
+              unfold test. cbn [fst snd]. destruct q as [|n' q']; cbn [matches]; rewrite E; reflexivity.
+           ++ rewrite (filter_ext_in' _ (fun _ => false)).
+              ** assert (E0 : forall l : list (path * node), filter (fun _ => false) l = []) by (induction l; auto).
+                 rewrite E0. reflexivity.
+              ** intros [q nd] Hq. unfold test. cbn [fst snd]. destruct q as [|n' q']; cbn [matches]; rewrite E; reflexivity.
+Qed.
+
+(* every denoted path resolves to a node that has the variable *)
+Lemma den_gnt : forall t v, WF t -> forall pat q, In q (den t v pat) ->
+  exists nd, gnt q t = Ok nd /\ has_var v nd = true.
+Proof.
+  induction t as [nd|ch IH] using tree_ind'; intros v W pat q H; [cbn in H; contradiction|].
+  destruct (WF_circ _ W) as [ND [_ Wc]]. rewrite Forall_forall in IH.
+  destruct pat as [|p rest]; [cbn in H; contradiction|].
+  cbn [den] in H. apply in_flat_map in H as [[n s] [Hin H]].
+  destruct (String.eqb p all || String.eqb p n); [|contradiction].
+  pose proof (assoc_In _ _ _ ND Hin) as Ha.
+  destruct s as [nd|ch'].
+  - destruct rest; [|contradiction]. destruct (has_var v nd) eqn:Ev; [|contradiction].
+    destruct H as [H|[]]. subst q. exists nd. cbn. rewrite Ha. auto.
+  - assert (Hq : exists pat', In q (map (cons n) (den (Circ ch') v pat'))).
+    { destruct rest; [destruct (String.eqb p all); [eauto|contradiction] | eauto]. }
+    destruct Hq as [pat' Hq]. apply in_map_iff in Hq as [q' [E Hq']]. subst q.
+    destruct (IH _ Hin v (Wc _ Hin) pat' q' Hq') as [nd [G Hv]].
+    exists nd. split; [|exact Hv]. cbn [gnt]. rewrite Ha. exact G.
+Qed.
+
+Lemma den_heads : forall ch v pat c q, In c ch ->
+  In q ((fun c : string * tree => let '(n, s) := c in
+            if String.eqb (hd "" pat) all || String.eqb (hd "" pat) n then
+              match s with
+              | Leaf nd => match tl pat with [] => if has_var v nd then [[n]] else [] | _ => [] end
+              | Circ _ => match tl pat with
+                          | [] => if String.eqb (hd "" pat) all then map (cons n) (den s v [all]) else []
+                          | _ => map (cons n) (den s v (tl pat))
+                          end
+              end
+            else []) c) -> exists q', q = fst c :: q'.
+Proof.
+  intros ch v pat [n s] q _ H. cbn [fst].
+  destruct (String.eqb (hd "" pat) all || String.eqb (hd "" pat) n); [|contradiction].
+  destruct s as [nd|ch'].
+  - destruct (tl pat); [|contradiction]. destruct (has_var v nd); [|contradiction]. destruct H as [H|[]]. subst. eauto.
+  - destruct (tl pat).
+    + destruct (String.eqb (hd "" pat) all); [|contradiction]. apply in_map_iff in H as [q' [E _]]. eauto.
+    + apply in_map_iff in H as [q' [E _]]. eauto.
+Qed.
+
+Lemma den_NoDup : forall t v, WF t -> forall pat, NoDup (den t v pat).
+Proof.
+  induction t as [nd|ch IH] using tree_ind'; intros v W pat; [constructor|].
+  destruct (WF_circ _ W) as [ND [_ Wc]]. rewrite Forall_forall in IH.
+  destruct pat as [|p rest]; [constructor|]. cbn [den].
+  apply NoDup_flat_map_heads; [exact ND| |].
+  - intros [n s] Hin. destruct (String.eqb p all || String.eqb p n); [|constructor].
+    destruct s as [nd|ch'].
+    + destruct rest; [|constructor]. destruct (has_var v nd); [|constructor]. constructor; [intros []|constructor].
+    + destruct rest.
+      * destruct (String.eqb p all); [|constructor]. apply NoDup_map_cons. apply (IH _ Hin v (Wc _ Hin)).
+      * apply NoDup_map_cons. apply (IH _ Hin v (Wc _ Hin)).
+  - intros c q Hc Hq. apply (den_heads ch v (p :: rest) c q Hc). exact Hq.
+Qed.
+
+(* ------------------------------------------------------------------------------------------ the filter *)
+Lemma gnwv_id : forall t v l, (forall q, In q l -> exists nd, gnt q t = Ok nd /\ has_var v nd = true) -> gnwv t v l = Ok l.
+Proof.
+  intros t v l H. unfold gnwv. destruct v as [ov|]; [|reflexivity].
+  induction l as [|q l IH]; cbn; [reflexivity|].
+  destruct (H q (or_introl eq_refl)) as [nd [G Hv]]. rewrite G. cbn. rewrite IH; [|intros; apply H; right; assumption].
+  cbn. rewrite Hv. reflexivity.
+Qed.
+
+Lemma gnwv_leaf : forall ch v n nd, assoc n ch = Some (Leaf nd) ->
+  gnwv (Circ ch) v [[n]] = Ok (if has_var v nd then [[n]] else []).
+Proof.
+  intros ch v n nd Ha. unfold gnwv. destruct v as [ov|]; [|reflexivity]. cbn. rewrite Ha. cbn. reflexivity.
+Qed.
+
+Lemma gnwv_leaves : forall ch v, NoDup (map fst ch) -> existsb (fun c => is_circ (snd c)) ch = false ->
+  gnwv (Circ ch) v (map (fun c => [fst c]) ch) =
+  Ok (flat_map (fun c : string * tree => match snd c with Leaf nd => if has_var v nd then [[fst c]] else [] | Circ _ => [] end) ch).
+Proof.
+  intros ch v ND NC. unfold gnwv. destruct v as [ov|].
+  - assert (G : forall l, incl l ch ->
+       gnwv_some (Circ ch) (Some ov) (map (fun c => [fst c]) l) =
+       Ok (flat_map (fun c : string * tree => match snd c with Leaf nd => if has_var (Some ov) nd then [[fst c]] else [] | Circ _ => [] end) l)).
+    { induction l as [|[n s] l IH]; intro Hi; [reflexivity|].
+      assert (Hin : In (n, s) ch) by (apply Hi; left; reflexivity).
+      assert (Hs : is_circ s = false).
+      { destruct (is_circ s) eqn:E; [|reflexivity]. exfalso.
+        assert (X : existsb (fun c => is_circ (snd c)) ch = true) by (apply existsb_exists; exists (n, s); auto). congruence. }
+      destruct s as [nd|]; [|discriminate].
+      cbn [map fst gnwv_some gnt]. rewrite (assoc_In _ _ _ ND Hin). cbn [bind].
+      rewrite IH; [|intros x Hx; apply Hi; right; exact Hx]. cbn [bind flat_map snd fst].
+      destruct (has_var (Some ov) nd); reflexivity. }
+    apply G. apply incl_refl.
+  - f_equal. induction ch as [|[n s] ch IH]; [reflexivity|].
+    cbn in NC. apply orb_false_iff in NC as [N1 N2]. inversion ND; subst.
+    destruct s; [|discriminate]. cbn. f_equal. apply IH; assumption.
+Qed.
+
+(* ------------------------------------------------------------------------------------------ get_nodes = den *)
+Definition sub_res (v : varid) (ch : list (string * tree)) (pat' : list string) : list (string * (bool * res (list path))) :=
+  map (fun c : string * tree => let '(n, s) := c in (n, (is_circ s, get_nodes s v pat'))) ch.
+Definition named (v : varid) (ch : list (string * tree)) (n : string) (isc : bool) (r : res (list path)) : res (list path) :=
+  if isc then bind r (fun l => gnwv (Circ ch) v (add_new [] (map (cons n) l))) else gnwv (Circ ch) v [[n]].
+Definition all_step (acc : res (list path)) (x : string * (bool * res (list path))) : res (list path) :=
+  let '(n, (isc, r)) := x in
+  bind acc (fun nodes => if isc then bind r (fun l => Ok (add_new nodes (map (cons n) l))) else Ok (nodes ++ [[n]])).
+
+Lemma get_nodes_circ : forall ch v pat,
+  get_nodes (Circ ch) v pat =
+  match pat with
+  | [] => Err IndexError
+  | [p] =>
+      if mem p (map fst ch) then gnwv (Circ ch) v [[p]]
+      else if String.eqb p all then
+        if existsb (fun c => is_circ (snd c)) ch
+        then seq_concat (map (fun x : string * (bool * res (list path)) => let '(n, (isc, r)) := x in named v ch n isc r) (sub_res v ch [all]))
+        else gnwv (Circ ch) v (map (fun c => [fst c]) ch)
+      else Ok []
+  | p :: rest =>
+      if String.eqb p all then bind (fold_left all_step (sub_res v ch rest) (Ok [])) (gnwv (Circ ch) v)
+      else match assoc p (sub_res v ch rest) with
+           | None => Err KeyError
+           | Some (isc, r) => named v ch p isc r
+           end
+  end.
+Proof. intros. destruct pat as [|p [|r rest]]; reflexivity. Qed.
+
+Lemma assoc_sub_res : forall v ch pat' n,
+  assoc n (sub_res v ch pat') = option_map (fun s => (is_circ s, get_nodes s v pat')) (assoc n ch).
+Proof.
+  intros. unfold sub_res. induction ch as [|[k s] ch IH]; cbn; [reflexivity|].
+  destruct (String.eqb n k); [reflexivity | apply IH].
+Qed.
+
+Lemma resolvable_all : forall ch, WF (Circ ch) -> resolvable (Circ ch) [all] = true.
+Proof.
+  intros ch W. destruct (WF_circ _ W) as [_ [NA _]]. unfold resolvable. cbn.
+  apply assoc_None in NA. rewrite NA. reflexivity.
+Qed.
+
+Lemma named_circ : forall ch v n ch' D, WF (Circ ch) -> In (n, Circ ch') ch -> NoDup D ->
+  (forall q, In q D -> exists nd, gnt q (Circ ch') = Ok nd /\ has_var v nd = true) ->
+  named v ch n true (Ok D) = Ok (map (cons n) D).
+Proof.
+  intros ch v n ch' D W Hin ND HD. destruct (WF_circ _ W) as [NDn _].
+  unfold named. cbn [bind]. rewrite add_new_nil by (apply NoDup_map_cons; exact ND).
+  apply gnwv_id. intros q Hq. apply in_map_iff in Hq as [q' [E Hq']]. subst q.
+  destruct (HD q' Hq') as [nd [G Hv]]. exists nd. split; [|exact Hv].
+  cbn [gnt]. rewrite (assoc_In _ _ _ NDn Hin). exact G.
+Qed.
+
+Theorem get_nodes_den : forall t v, WF t -> forall pat, resolvable t pat = true -> get_nodes t v pat = Ok (den t v pat).
+Proof.
+  induction t as [nd|ch IH] using tree_ind'; intros v W pat R; [cbn in R; discriminate|].
+  destruct (WF_circ _ W) as [ND [NA Wc]]. rewrite Forall_forall in IH.
+  rewrite get_nodes_circ. destruct pat as [|p [|r rest]].
+  - cbn in R. discriminate.
+  - (* one level left *)
+    unfold resolvable in R. cbn [chk] in R.
+    destruct (mem p (map fst ch)) eqn:M.
+    + apply mem_In in M. apply in_map_iff in M as [[n s] [E Hin]]. cbn in E. subst n.
+      rewrite (assoc_In _ _ _ ND Hin) in R. destruct s as [nd|ch']; [|cbn in R; discriminate].
+      rewrite (gnwv_leaf ch v p nd (assoc_In _ _ _ ND Hin)). f_equal. cbn [den].
+      rewrite (flat_map_single _ ch p (Leaf nd) ND Hin).
+      * rewrite String.eqb_refl, orb_true_r. reflexivity.
+      * intros [n s] Hc Hn. cbn in Hn.
+        assert (E1 : String.eqb p all = false).
+        { apply String.eqb_neq. intro E. subst p. apply NA. apply in_map_iff. exists (all, Leaf nd). auto. }
+        assert (E2 : String.eqb p n = false) by (apply String.eqb_neq; congruence).
+        rewrite E1, E2. reflexivity.
+    + apply mem_false in M. destruct (String.eqb p all) eqn:E1.
+      * apply String.eqb_eq in E1. subst p.
+        destruct (existsb (fun c => is_circ (snd c)) ch) eqn:EC.
+        -- unfold sub_res. rewrite map_map. cbn [den].
+           apply seq_concat_ok. intros [n s] Hin. rewrite String.eqb_refl. cbn [orb].
+           destruct s as [nd|ch'].
+           ++ cbn [is_circ named]. unfold named. apply gnwv_leaf. apply (assoc_In _ _ _ ND Hin).
+           ++ cbn [is_circ]. rewrite (IH _ Hin v (Wc _ Hin) [all] (resolvable_all _ (Wc _ Hin))).
+              apply (named_circ ch v n ch'); [exact W | exact Hin | apply den_NoDup; apply (Wc _ Hin) |].
+              intros q Hq. apply (den_gnt _ v (Wc _ Hin) _ _ Hq).
+        -- rewrite (gnwv_leaves ch v ND EC). f_equal. cbn [den]. apply flat_map_ext_in. intros [n s] Hin.
+           rewrite String.eqb_refl. cbn [orb fst snd].
+           destruct s as [nd|ch']; [reflexivity|]. exfalso.
+           assert (X : existsb (fun c => is_circ (snd c)) ch = true) by (apply existsb_exists; exists (n, Circ ch'); auto).
+           congruence.
+      * f_equal. cbn [den]. symmetry. apply flat_map_nil. intros [n s] Hin.
+        assert (E2 : String.eqb p n = false).
+        { apply String.eqb_neq. intro E. subst n. apply M. apply in_map_iff. exists (p, s). auto. }
+        rewrite E1, E2. reflexivity.
+  - (* at least two levels left *)
+    unfold resolvable in R. cbn [chk] in R. fold (resolvable) in R.
+    destruct (String.eqb p all) eqn:E1.
+    + (* wildcard level: every child is a resolvable circuit *)
+      rewrite forallb_forall in R.
+      set (G := fun c : string * tree => map (cons (fst c)) (den (snd c) v (r :: rest))).
+      assert (F : forall l acc, incl l ch -> NoDup (acc ++ flat_map G l) ->
+                  fold_left all_step (sub_res v l (r :: rest)) (Ok acc) = Ok (acc ++ flat_map G l)).
+      { induction l as [|[n s] l IHl]; intros acc Hi NDa; [cbn; rewrite app_nil_r; reflexivity|].
+        assert (Hin : In (n, s) ch) by (apply Hi; left; reflexivity).
+        specialize (R _ Hin). cbn [snd] in R. destruct (is_circ s) eqn:Es; [|discriminate].
+        cbn [sub_res map fold_left all_step]. rewrite Es. fold (sub_res v l (r :: rest)).
+        unfold resolvable in IH. rewrite (IH _ Hin v (Wc _ Hin) (r :: rest) R). cbn [bind].
+        cbn [flat_map] in NDa. unfold G at 1 in NDa. cbn [fst snd] in NDa. rewrite app_assoc in NDa.
+        rewrite add_new_app by (apply NoDup_app_remove_r in NDa; exact NDa).
+        rewrite IHl; [|intros x Hx; apply Hi; right; exact Hx | exact NDa].
+        cbn [flat_map]. unfold G at 2. cbn [fst snd]. rewrite app_assoc. reflexivity. }
+      assert (EQ : flat_map G ch = den (Circ ch) v (p :: r :: rest)).
+      { cbn [den]. apply flat_map_ext_in. intros [n s] Hin. rewrite E1. cbn [orb]. unfold G. cbn [fst snd].
+        specialize (R _ Hin). cbn [snd] in R. destruct s as [nd|ch']; [cbn in R; discriminate | reflexivity]. }
+      rewrite (F ch [] (incl_refl _)); cbn [app].
+      * cbn [bind]. rewrite EQ. apply gnwv_id. intros q Hq. apply (den_gnt _ v W _ _ Hq).
+      * rewrite EQ. apply den_NoDup. exact W.
+    + (* named level *)
+      rewrite assoc_sub_res. rewrite (assoc_map (fun s => (is_circ s, chk false false false s (r :: rest)))) in R.
+      destruct (assoc p ch) as [s|] eqn:Ea; cbn [option_map] in *; [|discriminate].
+      apply assoc_Some_In in Ea. destruct s as [nd|ch']; cbn [is_circ] in *; [discriminate|].
+      rewrite (IH _ Ea v (Wc _ Ea) (r :: rest) R).
+      rewrite (named_circ ch v p ch' _ W Ea (den_NoDup _ v (Wc _ Ea) _) (fun q Hq => den_gnt _ v (Wc _ Ea) _ _ Hq)).
+      f_equal. cbn [den]. rewrite (flat_map_single _ ch p (Circ ch') ND Ea).
+      * rewrite String.eqb_refl, orb_true_r. reflexivity.
+      * intros [n s] Hc Hn. cbn in Hn. assert (E2 : String.eqb p n = false) by (apply String.eqb_neq; congruence).
+        rewrite E1, E2. reflexivity.
+Qed.
+
+(* Core theorem of C06, first half: on every well-formed circuit tree and every resolvable pattern the recursion
+   of get_nodes returns exactly the denotation of the path. *)
+Theorem get_nodes_correct : forall t v pat, wfb t = true -> resolvable t pat = true ->
+  get_nodes t v pat = Ok (path_denotation t v pat).
+Proof.
+  intros t v pat W R. rewrite <- den_spec; [apply get_nodes_den; assumption|].
+  destruct t; [cbn in R; discriminate | reflexivity].
+Qed.
+
+Theorem path_denotation_NoDup : forall t v pat, wfb t = true -> NoDup (path_denotation t v pat).
+Proof.
+  intros t v pat W. destruct t as [nd|ch].
+  - unfold path_denotation. cbn. destruct (matches pat [] && has_var v nd); cbn; repeat constructor. intros [].
+  - rewrite <- den_spec by reflexivity. apply den_NoDup. assumption.
+Qed.
+
+Theorem get_nodes_NoDup : forall t v pat l, wfb t = true -> resolvable t pat = true -> get_nodes t v pat = Ok l -> NoDup l.
+Proof. intros t v pat l W R H. rewrite (get_nodes_correct t v pat W R) in H. inversion H. apply path_denotation_NoDup. exact W. Qed.
+
+(* every returned key is the address of a node of the tree that carries the variable *)
+Theorem path_denotation_sound : forall t v pat q, In q (path_denotation t v pat) ->
+  exists nd, In (q, nd) (leaves t) /\ matches pat q = true /\ has_var v nd = true.
+Proof.
+  intros t v pat q H. unfold path_denotation in H. apply in_map_iff in H as [[q' nd] [E H]]. cbn in E. subst q'.
+  apply filter_In in H as [H1 H2]. apply andb_true_iff in H2 as [H2 H3]. exists nd. auto.
+Qed.
+Theorem path_denotation_complete : forall t v pat q nd, In (q, nd) (leaves t) -> matches pat q = true -> has_var v nd = true ->
+  In q (path_denotation t v pat).
+Proof.
+  intros. unfold path_denotation. apply in_map_iff. exists (q, nd). split; [reflexivity|].
+  apply filter_In. split; [assumption|]. cbn. rewrite H0, H1. reflexivity.
+Qed.
+
+(* D31 and its relatives: outside the guard the recursion raises or reads the path leniently *)
+Theorem get_nodes_keyerror : forall ch v p r rest, String.eqb p all = false -> ~ In p (map fst ch) ->
+  get_nodes (Circ ch) v (p :: r :: rest) = Err KeyError.
+Proof.
+  intros ch v p r rest E H. rewrite get_nodes_circ, E, assoc_sub_res. apply assoc_None in H. rewrite H. reflexivity.
+Qed.
+
+(* ------------------------------------------------------------------------------------------ declaration order *)
+Theorem denotation_perm : forall t t' v pat, Permutation (leaves t) (leaves t') ->
+  Permutation (path_denotation t v pat) (path_denotation t' v pat).
+Proof.
+  intros t t' v pat H. unfold path_denotation. apply Permutation_map.
+  induction H; cbn; try (repeat match goal with |- context [if ?b then _ else _] => destruct b end); eauto using Permutation.
+Qed.
+
+Lemma leaves_perm_top : forall ch ch', Permutation ch ch' -> Permutation (leaves (Circ ch)) (leaves (Circ ch')).
+Proof.
+  intros ch ch' H. cbn [leaves]. induction H; cbn [flat_map].
+  - constructor.
+  - apply Permutation_app_head. exact IHPermutation.
+  - rewrite !app_assoc. apply Permutation_app_tail. apply Permutation_app_comm.
+  - eapply Permutation_trans; eassumption.
+Qed.
+
+(* reordering the children at any level *)
+Inductive tperm : tree -> tree -> Prop :=
+| tperm_leaf : forall nd, tperm (Leaf nd) (Leaf nd)
+| tperm_circ : forall ch ch1 ch', Forall2 (fun c c1 => fst c = fst c1 /\ tperm (snd c) (snd c1)) ch ch1 ->
+                 Permutation ch1 ch' -> tperm (Circ ch) (Circ ch').
+
+Lemma tperm_leaves : forall t t', tperm t t' -> Permutation (leaves t) (leaves t').
+Proof.
+  fix IH 3. intros t t' H. destruct H as [nd|ch ch1 ch' F P].
+  - apply Permutation_refl.
+  - eapply Permutation_trans; [|apply leaves_perm_top; exact P].
+    cbn [leaves]. induction F as [|[n s] [n1 s1] l l1 [E T] F' IHF]; [constructor|].
+    cbn [flat_map fst snd] in *. subst n1. apply Permutation_app; [|exact IHF].
+    apply Permutation_map. apply IH. exact T.
+Qed.
+
+Theorem denotation_order_invariant : forall t t' v pat, tperm t t' ->
+  Permutation (path_denotation t v pat) (path_denotation t' v pat).
+Proof. intros. apply denotation_perm. apply tperm_leaves. assumption. Qed.
